@@ -122,6 +122,27 @@ theorem C01_provenance (r : List Sample) (rs : List (List Sample)) (h : ValidRep
   · exact ⟨r, by simp, h⟩
   · exact ⟨q, by simp [hq], hz⟩
 
+/-- **C01, provenance, for every function name outside `isCounter`'s set** (gauge functions,
+    `*_over_time`, aggregations, the Thanos x-functions `xrate`/`xincrease`/`xdelta`, unknown
+    names, the empty name): every sample of the merged series is a sample — same timestamp AND
+    value — of one of the replicas. -/
+theorem C01_provenance_fn (f : String) (hf : f ∉ counterFuncs) (r : List Sample)
+    (rs : List (List Sample)) (h : ValidReplicas r rs)
+    (z : Sample) (hz : z ∈ drain (mkF true f r rs)) : ∃ q ∈ r :: rs, z ∈ q := by
+  have : isCounter f = false := by
+    unfold isCounter
+    cases hc : counterFuncs.contains f with
+    | false => rfl
+    | true => exact absurd (List.contains_iff_mem.mp hc) hf
+  unfold mkF at hz
+  rw [this] at hz
+  exact C01_provenance r rs h z hz
+
+/-- the boundary the classification must not cross: the extended range functions of the Thanos
+    engine and the gauge functions are NOT counter functions -/
+example : ["xrate", "xincrease", "xdelta", "delta", "idelta", "deriv", "", "sum", "max_over_time"].all
+    (fun f => !isCounter f) = true := by decide
+
 /-- **C01, single replica.** -/
 theorem C01_single (fixed counter : Bool) (r : List Sample) : drain (mk fixed counter r []) = r := by
   show drainN leafOps (r.length + 1) (Leaf.init r) = r
@@ -361,5 +382,14 @@ theorem C01_fact_next_shape :
     Thanos.Facts.dedupPenA = ["0", "0", "2 * (tb - it.lastT)", "initialPenalty"] ∧
     Thanos.Facts.dedupPenB = ["0", "2 * (ta - it.lastT)", "initialPenalty", "0"] ∧
     Thanos.Facts.dedupUseA = ["false", "true", "ta <= tb"] := by decide
+
+/-- the set of function names `isCounter` accepts is exactly the model's `counterFuncs`: the
+    function is one disjunction of equality tests against these four names and nothing else
+    (C01's provenance holds for every other name, C02's monotonicity for these) -/
+theorem C01_fact_counter_funcs :
+    Thanos.Facts.dedupCounterFuncs = counterFuncs ∧
+    Thanos.Facts.dedupCounterReturns =
+      ["f == \"increase\" || f == \"rate\" || f == \"irate\" || f == \"resets\""] ∧
+    Thanos.Facts.dedupNewSeriesCounter = ["f"] := by decide
 
 end Thanos.Dedup
